@@ -44,8 +44,8 @@ structure POutlier where
 
 structure PCluster where
   name : String
-  typ : Nat                        -- the enum number on the wire
-  lb : Nat
+  typ : Int                        -- the enum number on the wire (a protobuf enum is an int32: negative and unknown values occur)
+  lb : Int
   serviceName : String             -- EdsClusterConfig.ServiceName ("" when absent)
   inline : Option PCla
   outlier : Option POutlier
@@ -60,11 +60,11 @@ structure DCluster where
   deriving DecidableEq, Repr, Inhabited
 
 /-- `convertDiscoveryType` (STATIC=0, STRICT_DNS=1, LOGICAL_DNS=2, EDS=3, ORIGINAL_DST=4) -/
-def convType (n : Nat) : DiscType :=
+def convType (n : Int) : DiscType :=
   if n = 3 then .eds else if n = 2 then .logicalDns else if n = 0 then .static else .eds
 
 /-- `convertLbPolicy` (ROUND_ROBIN=0, RING_HASH=2) -/
-def convLb (n : Nat) : LbPolicy := if n = 2 then .ringHash else .roundRobin
+def convLb (n : Int) : LbPolicy := if n = 2 then .ringHash else .roundRobin
 
 /-- `unmarshalCluster` after `proto.Unmarshal` -/
 def decodeCluster (c : PCluster) : String × DCluster :=
